@@ -259,6 +259,52 @@ theorem kinds_of_sequence (rs : List ((String → Bool) × Bool)) :
     rs.map (fun r => kindOf Generated.TreeKinds.tables r.1 r.2) = rs.map (fun r => Spec.kind r.1 r.2) := by
   simp [kind_follows_blocks]
 
+/-! ### A record and its channel list travel as a pair
+
+The model gives a record and its channel list ONE payload id (`parse_flatten` then speaks about both). That is an
+assumption about the source: the four slots `_record` / `_channels` / `_bounding_record` / `_bounding_channels` are
+filled with the objects handed in, unmodified, `_set_bounding_records` is always given the record and the channel
+list of the same file position, and `_build_record_tree` appends the two slots of a position in parallel. The three
+tables are read from the AST of api/layers.py and api/psd_image.py on every run. (The search varies the NUMBER of
+channels of every record kind over 0, 1, 2, 4, 5 — an empty list is falsy in Python — and compares the flattened
+lists slot by slot, then saves and reopens.) -/
+
+/-- **The pair slots are plain stores, called with pairs, flattened in parallel.** -/
+theorem pair_slots_tied :
+    Generated.TreeKinds.pairStores =
+      [("Layer.__init__", "_record", "record"), ("Layer.__init__", "_channels", "channels"),
+       ("Group.__init__", "_bounding_record", "None"), ("Group.__init__", "_bounding_channels", "None"),
+       ("Group._set_bounding_records", "_bounding_record", "_bounding_record"),
+       ("Group._set_bounding_records", "_bounding_channels", "_bounding_channels"),
+       ("PixelLayer._convert", "_channels", "new_layer._channels"),
+       ("PSDImage.__init__", "_record", "data")] ∧
+    Generated.TreeKinds.pairCalls =
+      [("Group.new", "_bounding_record, _bounding_channels"),
+       ("Artboard._move", "group._bounding_record, group._bounding_channels"),
+       ("PSDImage._init", "record, channels")] ∧
+    Generated.TreeKinds.flattenAppends =
+      [("layer_records", "layer._bounding_record"), ("channel_image_data", "layer._bounding_channels"),
+       ("layer_records", "layer._record"), ("channel_image_data", "layer._channels")] := by decide
+
+/-- what a slot holds after a store: the argument itself (`plain`), or — the variant the tie excludes — `arg or
+fallback`, where Python's truthiness makes an EMPTY channel list fall through -/
+def storeSlot (plain : Bool) (arg fallback : Option (List Nat)) : Option (List Nat) :=
+  if plain then arg else
+    match arg with
+    | some (_ :: _) => arg
+    | _ => fallback
+
+/-- a plain store keeps the pair for every channel list, the empty one included -/
+theorem plain_store_keeps_pair (arg fallback : Option (List Nat)) : storeSlot true arg fallback = arg := rfl
+
+/-- necessity of `pair_slots_tied`: a store through `or` agrees with the plain one on every non-empty list … -/
+theorem truthy_store_agrees_nonempty (c : Nat) (cs : List Nat) (fallback : Option (List Nat)) :
+    storeSlot false (some (c :: cs)) fallback = some (c :: cs) := rfl
+
+/-- … and loses an empty channel list (a divider record without channels): the slot then holds the fallback -/
+theorem truthy_store_loses_empty_list :
+    storeSlot false (some []) none ≠ some [] ∧ storeSlot false (some []) (some [7, 8]) = some [7, 8] := by decide
+
 /-! ### Where the records are: `layer_info`, `Lr16`, `Lr32`
 
 `PSDImage._init` iterates `PSD._iter_layers()`, i.e. the records of `PSD._get_layer_info()`
